@@ -255,11 +255,23 @@ class JoinAligned(Contract):
                     for sort in (False, True):
                         if func == "concatenate" and rank == 1:
                             continue          # no secondary axis to align
-                        yield {"name": "%s-r%d-%s-%s" % (func, rank, "swapped" if swapped else "same_order", "sort" if sort else "nosort"),
-                               "func": func, "rank": rank, "k": 2, "orders": _orders(rank, 2, swapped), "swapped": swapped, "sort": sort}
+                        for offset in (0, 10 ** 7):
+                            # labels far from zero: distinct labels whose spacing is tiny relative to their magnitude (dates as
+                            # integers, coordinates in metres) must still be told apart
+                            if offset and (swapped or sort):
+                                continue
+                            yield {"name": "%s-r%d-%s-%s%s" % (func, rank, "swapped" if swapped else "same_order", "sort" if sort else "nosort", "-far_from_zero" if offset else ""),
+                                   "func": func, "rank": rank, "k": 2, "orders": _orders(rank, 2, swapped), "swapped": swapped, "sort": sort, "offset": offset}
 
     def setup(self, S, case):
-        return _make_arrays(S, case)
+        env = _make_arrays(S, case)
+        if case.get("offset"):
+            import numpy as np
+            for j, arr in enumerate(env["arrays"]):
+                for d, ax in zip(case["orders"][j], arr.axes):
+                    ax.values = np.asarray(ax.values) + float(case["offset"])
+                    env["labels"][j][d] = ax.values
+        return env
 
     def call(self, fn, env):
         import dimarray
